@@ -355,6 +355,13 @@ def run(tier):
     seen = set()
     for f, sid, var, why in found:
         loc = rel(f.short_loc(sid)) if sid in f.stmts else rel(f.loc)
+        if why.startswith("assigned to"):
+            key = "SINGULAR-ITERATOR@%s#%s" % (f.qname, var)
+            if key not in seen:
+                seen.add(key)
+                rep.fail(key, "%s: in %s the iterator '%s', declared without a value, is %s: the parser then continues from a singular iterator "
+                         "(the next read is a null or wild dereference)" % (loc, f.qname, var, why))
+            continue
         if why == "incremented":
             key = "UNCHECKED-INCREMENT@%s#%s" % (f.qname, var)
             if key in seen:
